@@ -133,6 +133,12 @@ func (k Keeper) GetAllStakerListAssets(ctx sdk.Context) (ret []types.StakerListA
 }
 
 func (k Keeper) UpdateNSTValidatorListForStaker(ctx sdk.Context, assetID, stakerAddr, validatorPubkey string, amount sdkmath.Int) error {
+	// native restaking is only supported for the assets whose maximum effective balance is
+	// known: without it every deposit would be booked as a balance of zero, i.e. the staker
+	// would be added to the staker list while its info is deleted again.
+	if _, ok := maxEffectiveBalance[assetID]; !ok {
+		return fmt.Errorf("native restaking is not supported for asset %s", assetID)
+	}
 	// emit an event to tell that a staker's validator list has changed
 	ctx.EventManager().EmitEvent(sdk.NewEvent(
 		types.EventTypeCreatePrice,
